@@ -86,6 +86,9 @@ def pool(spec):
                     siblings.append(((p.name, p.text()), (q.name, q.text())))
                     # and the guard symbol defined by a file of another name
                     siblings.append((("other.c", "#define %s 1\n" % p.meta["guard"]), (q.name, q.text())))
+    # declaration-shaped statements in random order (G-DECL): as predecessors and as targets
+    from nv.gen import decls
+    files["decl"] = [decls.source(rng) for _ in range(8)]
     files["siblings"] = siblings
     return files, rng
 
@@ -192,7 +195,7 @@ def run_histories(spec):
                 opened.append(p)
     ACTIVE = [False]
     sys.addaudithook(audit)
-    targets = files["conf"][:4] + files["h"][:2] + files["viol"][:6]
+    targets = files["conf"][:4] + files["h"][:2] + files["viol"][:6] + files["decl"][:3]
     if spec["shard"] % 4 == 0 or spec["tier"] == "thorough":
         # the fixed files are the same in every shard: a few shards take them as targets (with their own histories)
         targets += files["fatal"] + files["amp"]
